@@ -62,6 +62,14 @@ def run(ctx):
     for _ in range(40):
         m = random_tree_mol(rng, rng.choice([4, 8, 16]), p_ring=0.2, p_bracket=0.3)
         pool_e.append(spell(m, rng)[0])
+    # aromatic inputs too (standard, anchored and exotic kinds, hypervalent aromatic S / P): kekulization must not
+    # look at the table either
+    from vmon.aromgen import standard_system, substituted_system, ANCHORED, EXOTIC
+    for _ in range(30):
+        m = rng.choice([lambda: standard_system(rng)[0], lambda: substituted_system(rng, EXOTIC)[0],
+                        lambda: substituted_system(rng, ANCHORED)[0]])()
+        pool_e.append(spell(m, rng)[0])
+    pool_e += ["O=s1cccc1", "c1ccs(=O)cc1", "O=p1ccccc1", "c1ccp(=O)(C)cc1", "O=s1(=O)cccc1", "c1cc[se](=O)c1", "Cn1cccc1", "O=[n+]1ccccc1"]
     M = ApiModel(ctx, sf, check_model=False)
     try:
         for h in range(80 if quick else 4000):
@@ -99,7 +107,7 @@ def run(ctx):
             for k in rng.sample(ELS_SAT, 3):
                 sat.append(["d", "[%s]" % k + "[Branch1][C][F]" * 7 + "[=O]", {}])
             probes = sat + [["d", rng.choice(pool_d), {"attribute": rng.random() < 0.2}] for _ in range(6)] + \
-                     [["e", rng.choice(pool_e), {"strict": False, "attribute": rng.random() < 0.2}] for _ in range(3)]
+                     [["e", rng.choice(pool_e), {"strict": False, "attribute": rng.random() < 0.2}] for _ in range(5)]
             res = [call(sf, k, x, fl) for k, x, fl in probes]
             again = [call(sf, k, x, fl) for k, x, fl in probes]
             payload = {"history": list(M.log[-80:]), "table": table}
